@@ -14,7 +14,7 @@ import (
 
 func TestC31(t *testing.T) {
 	col := ev.New("C31", "rapid state machine on the disassembler mode of the real UI over synthetic programs (1-6 blocks): "+
-		"actions down n / up n / goto n (n from 0, small, to-the-last-line, line count, beyond, MaxInt), entrypoint, find "+
+		"actions down n / up n / goto n (n from 0, small, to-the-last-line, line count, beyond, MaxInt; a sixth of the small ones zero-padded), entrypoint, find "+
 		"<pattern> (literal fragments of existing line texts, anchors, character classes, alternations, patterns matching "+
 		"nothing / only the cursor line / only lines before the cursor, one or two tokens, malformed patterns), interleaved "+
 		"with instruction and block moves so texts and block positions change. Model: cursor integer + the harness' own "+
@@ -85,12 +85,33 @@ func TestC31(t *testing.T) {
 			return uniformInt(t, lines+1, "n")
 		}
 
+		// numeral writes n the way a user may type it: plainly, or (one time in six,
+		// for small n) padded with zeros. A padded numeral may be refused (cursor
+		// unchanged); if it is accepted it denotes the decimal number.
+		numeral := func(t *rapid.T, n int) (string, bool) {
+			if n < 100000 && uniformInt(t, 6, "zeroPadded") == 0 {
+				return fmt.Sprintf("%0*d", len(fmt.Sprint(n))+1+uniformInt(t, 2, "zeros"), n), true
+			}
+			return fmt.Sprint(n), false
+		}
+		refusedPadded := func(t *rapid.T, line string, padded, rejected bool) bool {
+			if padded && rejected {
+				expect(t, line, cursor, rejected)
+				return true
+			}
+			return false
+		}
+
 		t.Repeat(map[string]func(*rapid.T){
 			"down": func(t *rapid.T) {
 				lines := len(renderCode(code))
 				n := drawN(t, lines)
-				line := fmt.Sprintf("down %d", n)
+				num, padded := numeral(t, n)
+				line := "down " + num
 				rejected, _ := run(t, line)
+				if refusedPadded(t, line, padded, rejected) {
+					return
+				}
 				ok := n <= lines-1-cursor
 				if rejected == ok {
 					t.Fatalf("%q with cursor %d of %d lines: rejected=%v", line, cursor, lines, rejected)
@@ -105,8 +126,12 @@ func TestC31(t *testing.T) {
 			"up": func(t *rapid.T) {
 				lines := len(renderCode(code))
 				n := drawN(t, lines)
-				line := fmt.Sprintf("up %d", n)
+				num, padded := numeral(t, n)
+				line := "up " + num
 				rejected, _ := run(t, line)
+				if refusedPadded(t, line, padded, rejected) {
+					return
+				}
 				ok := n <= cursor
 				if rejected == ok {
 					t.Fatalf("%q with cursor %d: rejected=%v", line, cursor, rejected)
@@ -121,8 +146,12 @@ func TestC31(t *testing.T) {
 			"goto": func(t *rapid.T) {
 				lines := len(renderCode(code))
 				n := drawN(t, lines)
-				line := fmt.Sprintf("goto %d", n)
+				num, padded := numeral(t, n)
+				line := "goto " + num
 				rejected, _ := run(t, line)
+				if refusedPadded(t, line, padded, rejected) {
+					return
+				}
 				ok := n < lines
 				if rejected == ok {
 					t.Fatalf("%q with %d lines: rejected=%v", line, lines, rejected)
